@@ -226,13 +226,24 @@ Proof.
     rewrite le_num_le_bytes2 by exact Hc0. apply runs_ret.
 Qed.
 
-Lemma read_streams_runs log : forall ss chunks ss1,
-  Forall3 (fun s c s1 => bsr_append s c = Ok s1) ss chunks ss1 ->
+(** What [read_streams] does with the chunk of one record: appended to the bit
+    buffer, or dropped when the record has no bits. *)
+Definition keep_append (t : dtype) (s : bsr) (c : list N) : res bsr :=
+  if bit_size t =? 0 then Ok s else bsr_append s c.
+
+Inductive Forall4 {A B C D} (R : A -> B -> C -> D -> Prop) :
+  list A -> list B -> list C -> list D -> Prop :=
+| Forall4_nil : Forall4 R [] [] [] []
+| Forall4_cons a b c d la lb lc ld : R a b c d -> Forall4 R la lb lc ld ->
+    Forall4 R (a :: la) (b :: lb) (c :: lc) (d :: ld).
+
+Lemma read_streams_runs log : forall ts ss chunks ss1,
+  Forall4 (fun t s c s1 => keep_append t s c = Ok s1) ts ss chunks ss1 ->
   forall off rest, cur log off (concat chunks ++ rest) ->
-  runs log (read_streams (map (@len N) chunks) ss) off (off + len (concat chunks)) ss1 /\
+  runs log (read_streams ts (map (@len N) chunks) ss) off (off + len (concat chunks)) ss1 /\
   cur log (off + len (concat chunks)) rest.
 Proof.
-  induction 1 as [|s c s1 ss chunks ss1 Ha HF IH]; intros off rest Hc.
+  induction 1 as [|t s c s1 ts ss chunks ss1 Ha HF IH]; intros off rest Hc.
   - cbn [map read_streams concat]. rewrite qlen_nil, N.add_0_r. split; [apply runs_ret|exact Hc].
   - cbn [concat] in Hc. rewrite <- app_assoc in Hc.
     destruct (rd_runs _ _ _ _ (len c) Hc eq_refl) as [Hr1 Hc1].
@@ -241,12 +252,18 @@ Proof.
     replace (off + (len c + len (concat chunks))) with (off + len c + len (concat chunks)) by lia.
     split; [|exact Hc2].
     cbn [map read_streams]. eapply runs_bind; [exact Hr1|].
-    eapply runs_bind; [apply runs_rlift; exact Ha|].
+    unfold keep_append in Ha.
+    eapply runs_bind with (a := s1) (off1 := off + len c).
+    { destruct (bit_size t =? 0); [injection Ha as <-; apply runs_ret|apply runs_rlift; exact Ha]. }
     eapply runs_bind; [exact Hr2|]. apply runs_ret.
 Qed.
 
 Lemma Forall3_length {A B C} (R : A -> B -> C -> Prop) la lb lc :
   Forall3 R la lb lc -> length la = length lb /\ length lb = length lc.
+Proof. induction 1; cbn [length]; lia. Qed.
+
+Lemma Forall4_length {A B C D} (R : A -> B -> C -> D -> Prop) la lb lc ld :
+  Forall4 R la lb lc ld -> length la = length lb /\ length lb = length lc /\ length lc = length ld.
 Proof. induction 1; cbn [length]; lia. Qed.
 
 (** * [qr_advance] *)
@@ -297,7 +314,7 @@ Qed.
 Lemma advance_data log off q chunks rest ss1 ss2 qs2 :
   off mod 4 = 0 -> packet_ok (length (q_proto q)) (SData chunks) = true ->
   cur log off (encode_packet (SData chunks) ++ rest) ->
-  Forall3 (fun s c s1 => bsr_append s c = Ok s1) (q_streams q) chunks ss1 ->
+  Forall4 (fun t s c s1 => keep_append t s c = Ok s1) (q_proto q) (q_streams q) chunks ss1 ->
   has_sized (q_proto q) = true ->
   parse_streams (q_proto q) ss1 (q_queues q) = Ok (ss2, qs2) ->
   runs log (qr_advance q) off (off + data_packet_len chunks) (mkQr (q_proto q) ss2 qs2) /\
@@ -307,7 +324,7 @@ Proof.
   apply packet_ok_data in Hok as (Hn & H0 & Hdl & Hlt & _).
   destruct (hdr_data_runs _ _ _ _ H0 Hdl Hc) as (flag & Hr1 & Hc1).
   destruct (read_sizes_runs _ _ _ _ Hlt Hc1) as [Hr2 Hc2].
-  destruct (read_streams_runs _ _ _ _ HF _ _ Hc2) as [Hr3 Hc3].
+  destruct (read_streams_runs _ _ _ _ _ HF _ _ Hc2) as [Hr3 Hc3].
   assert (Ho : off + 6 + 2 * len chunks + len (concat chunks) = off + raw_len chunks)
     by (unfold raw_len; lia).
   rewrite Ho in *.
@@ -318,7 +335,7 @@ Proof.
     by (rewrite data_packet_len_eq; lia).
   split; [|exact Hc4].
   unfold qr_advance. eapply runs_bind; [exact Hr1|]. cbv iota.
-  destruct (Forall3_length _ _ _ _ HF) as [Hl1 Hl2].
+  destruct (Forall4_length _ _ _ _ _ HF) as (Hl0 & Hl1 & Hl2).
   assert (Hcnt : (len chunks =? len (q_streams q)) = true) by (unfold len; lia).
   rewrite Hcnt. cbn [negb].
   eapply runs_bind.
